@@ -1,7 +1,7 @@
 (* E2 — the round-trip theorems of C07 (row codec): writing an instance as a row of cells
    and parsing the row again.  Induction over the model universe; packed leaves are
    discharged with the cell codec's round trip (Cell/CellFacts.v).  No axioms. *)
-From Coq Require Import List NArith ZArith Bool Lia ZifyBool Arith.
+From Coq Require Import List NArith ZArith Bool Lia ZifyBool Arith FinFun.
 From RPFT Require Import Base.Sexp Base.PyStr Base.PyStrFacts Base.Result Base.ODict Gen.Tables
   Cell.Cell Cell.CellFacts Row.Ty Row.Layout Row.RowParse Row.RowUnparse Row.TextFacts Row.RoundTrip.
 Import ListNotations.
@@ -1230,4 +1230,227 @@ Proof.
     rewrite <- (enc_model fields h2f f2h). apply validate_model_enc; assumption.
   - unfold cells_of. apply Forall_forall. intros kv Hin. apply in_map_iff in Hin as [ps [<- Hps]]. cbn [fst].
     apply header_no_star. unfold names_ok in F3. rewrite Forall_forall in F3. apply F3, Hps.
+Qed.
+
+(* ================================================================== H. inside the domain unparse_row succeeds *)
+Lemma NoDup_nodup_str l : NoDup l -> nodup_str l = true.
+Proof.
+  induction 1 as [|x r Hx Hr IH]; [reflexivity|]. cbn [nodup_str]. rewrite IH, andb_true_r.
+  apply negb_true_iff. destruct (existsb (str_eqb x) r) eqn:E; [|reflexivity].
+  apply existsb_exists in E as [y [Hy E]]. apply str_eqb_eq in E. subst y. contradiction.
+Qed.
+
+Lemma NoDup_app_disjoint {X} (a b : list X) :
+  NoDup a -> NoDup b -> (forall x, In x a -> ~ In x b) -> NoDup (a ++ b).
+Proof.
+  induction 1 as [|x r Hx Hr IH]; intros Hb Hd; [exact Hb|]. cbn [app]. constructor.
+  - intros Hin. apply in_app_or in Hin as [Hin|Hin]; [contradiction|]. apply (Hd x); [left; reflexivity|exact Hin].
+  - apply IH; [exact Hb|]. intros y Hy. apply Hd. right. exact Hy.
+Qed.
+
+Definition head_is (P : str -> Prop) (p : list str) : Prop := match p with [] => False | c :: _ => P c end.
+
+Lemma NoDup_prefix c (cs : cols) : NoDup (map fst cs) -> NoDup (map fst (prefix_cols c cs)).
+Proof.
+  unfold prefix_cols. rewrite map_map. cbn [fst]. intros H.
+  rewrite <- (map_map fst (cons c)). apply FinFun.Injective_map_NoDup; [|exact H].
+  intros a b E. injection E as E. exact E.
+Qed.
+
+Lemma heads_prefix c (cs : cols) : Forall (fun p => head_is (eq c) p) (map fst (prefix_cols c cs)).
+Proof.
+  apply Forall_forall. intros p Hin. apply in_map_iff in Hin as [ps [<- Hps]].
+  unfold prefix_cols in Hps. apply in_map_iff in Hps as [x [<- _]]. reflexivity.
+Qed.
+
+Lemma write_text_ok t v :
+  (if is_basic_ty t then basic_ok t v else packed_ok t v) = true -> exists s, write_text t v = Ok s.
+Proof.
+  unfold write_text. destruct (is_basic_ty t) eqn:Hb; intros H.
+  - destruct t; try discriminate; destruct v; try discriminate; eexists; reflexivity.
+  - destruct t as [| | | | |t'|fields h2f f2h]; try discriminate; destruct v as [| | | |l|fs]; try discriminate.
+    + unfold packed_ok in H. destruct (to_nv TUList (VList l)) as [x|]; [|discriminate].
+      apply andb_true_iff in H as [H _]. apply andb_true_iff in H as [Hw _].
+      destruct (list_roundtrip x Hw) as [txt [J _]]. exists txt. cbn [bind]. unfold join_cell. rewrite J. reflexivity.
+    + destruct l as [|e l']; [exists []; reflexivity|].
+      unfold packed_ok in H. destruct (to_nv (TList t') (VList (e :: l'))) as [x|]; [|discriminate].
+      apply andb_true_iff in H as [H _]. apply andb_true_iff in H as [Hw _].
+      destruct (list_roundtrip x Hw) as [txt [J _]]. exists txt. cbn [bind]. unfold join_cell. rewrite J. reflexivity.
+    + unfold packed_ok in H. destruct (to_nv (TModel fields h2f f2h) (VModel fs)) as [x|]; [|discriminate].
+      apply andb_true_iff in H as [H _]. apply andb_true_iff in H as [Hw _].
+      destruct (list_roundtrip x Hw) as [txt [J _]]. exists txt. cbn [bind]. unfold join_cell. rewrite J. reflexivity.
+Qed.
+
+Lemma mapRi_cons {E X T} (g : nat -> X -> result E T) i x r :
+  mapRi g i (x :: r) = match g i x with
+                       | Err e => Err e
+                       | Ok y => match mapRi g (S i) r with Err e => Err e | Ok ys => Ok (y :: ys) end
+                       end.
+Proof. reflexivity. Qed.
+
+Section Total.
+  Variable tgt : list str -> bool.
+
+  Definition total_ok (t : ty) : Prop :=
+    forall v comps, dom tgt t v comps = true ->
+      exists cs, unparse_rec tgt noexc t v comps = Ok cs /\ NoDup (map fst cs).
+
+  Lemma writes_ok t v comps : writes tgt t v comps = true -> exists cs, unparse_rec tgt noexc t v comps = Ok cs.
+  Proof. unfold writes. destruct (unparse_rec tgt noexc t v comps) as [cs|]; [eauto|discriminate]. Qed.
+
+  Lemma total_leaf t v comps :
+    is_basic_ty t || tgt comps = true -> dom tgt t v comps = true ->
+    exists cs, unparse_rec tgt noexc t v comps = Ok cs /\ NoDup (map fst cs).
+  Proof.
+    intros Hl Hd. rewrite unparse_rec_unfold, Hl.
+    destruct (write_text_ok t v) as [s Hs].
+    { rewrite dom_unfold in Hd. destruct (is_basic_ty t); [exact Hd|]. cbn [orb] in Hl. rewrite Hl in Hd. exact Hd. }
+    rewrite Hs. eexists. split; [reflexivity|]. repeat constructor. intros [].
+  Qed.
+
+  Lemma total_list_elems t' comps : total_ok t' -> forall l i,
+    dom_elems tgt t' comps i l = true ->
+    exists gs, mapRi (fun i e => let c := print_nat (S i) in
+                                 rmap (prefix_cols c) (unparse_rec tgt noexc t' e (comps ++ [c]))) i l = Ok gs
+      /\ NoDup (map fst (concat gs))
+      /\ Forall (fun p => head_is (fun c => exists j, c = print_nat (S j) /\ (i <= j)%nat) p) (map fst (concat gs)).
+  Proof.
+    intros IHt. induction l as [|e r IH]; intros i Hd.
+    - exists []. repeat split; constructor.
+    - cbn [dom_elems] in Hd. cbn zeta in Hd. apply andb_true_iff in Hd as [Hd Hd3]. apply andb_true_iff in Hd as [_ Hd2].
+      destruct (IHt e _ Hd2) as (cs & Hcs & Hnd). destruct (IH (S i) Hd3) as (gs & Hgs & Hnd2 & Hh).
+      exists (prefix_cols (print_nat (S i)) cs :: gs). rewrite mapRi_cons, Hgs. cbv beta zeta. rewrite Hcs. cbn [rmap].
+      split; [reflexivity|]. cbn [concat]. rewrite map_app. split.
+      + apply NoDup_app_disjoint; [apply NoDup_prefix, Hnd|exact Hnd2|].
+        intros p Hp Hq. pose proof (heads_prefix (print_nat (S i)) cs) as H1.
+        rewrite Forall_forall in H1, Hh. specialize (H1 p Hp). specialize (Hh p Hq).
+        destruct p as [|c p']; [contradiction|]. cbn [head_is] in H1, Hh. destruct Hh as (j & Hj & Hle).
+        rewrite <- H1 in Hj. apply print_nat_inj in Hj. lia.
+      + apply Forall_app. split.
+        * pose proof (heads_prefix (print_nat (S i)) cs) as H1. rewrite Forall_forall in *.
+          intros p Hp. specialize (H1 p Hp). destruct p; [contradiction|]. cbn [head_is] in *. exists i. split; [congruence|lia].
+        * rewrite Forall_forall in *. intros p Hp. specialize (Hh p Hp). destruct p; [contradiction|]. cbn [head_is] in *.
+          destruct Hh as (j & Hj & Hle). exists j. split; [exact Hj|lia].
+  Qed.
+
+  Lemma total_ulist_elems comps : forall l i,
+    forallb (fun e => match e with VStr s => trimmedb s | _ => false end) l = true ->
+    exists gs, mapRi (fun i e => let c := print_nat (S i) in
+                                 rmap (prefix_cols c) (unparse_u tgt noexc e (comps ++ [c]))) i l = Ok gs
+      /\ NoDup (map fst (concat gs))
+      /\ Forall (fun p => head_is (fun c => exists j, c = print_nat (S j) /\ (i <= j)%nat) p) (map fst (concat gs)).
+  Proof.
+    induction l as [|e r IH]; intros i Hd.
+    - exists []. repeat split; constructor.
+    - cbn [forallb] in Hd. apply andb_true_iff in Hd as [He Hd3]. destruct e as [s| | | | |]; try discriminate.
+      destruct (IH (S i) Hd3) as (gs & Hgs & Hnd2 & Hh).
+      exists ([([print_nat (S i)], s)] :: gs). rewrite mapRi_cons, Hgs. cbv beta zeta. cbn [unparse_u noexc rmap].
+      split; [reflexivity|]. cbn [concat app map fst]. split.
+      + constructor; [|exact Hnd2]. intros Hq. rewrite Forall_forall in Hh. specialize (Hh _ Hq). cbn [head_is] in Hh.
+        destruct Hh as (j & Hj & Hle). apply print_nat_inj in Hj. lia.
+      + constructor; [cbn [head_is]; exists i; split; [reflexivity|lia]|].
+        rewrite Forall_forall in *. intros p Hp. specialize (Hh p Hp). destruct p; [contradiction|]. cbn [head_is] in *.
+        destruct Hh as (j & Hj & Hle). exists j. split; [exact Hj|lia].
+  Qed.
+
+  Lemma total_model_fields h2f f2h comps : forall fds,
+    Forall (fun f => total_ok (f_ty f)) fds -> forall fs,
+    NoDup (map f_name fds) ->
+    dom_fields tgt h2f f2h comps fds fs = true ->
+    exists gs, unparse_fields tgt f2h comps fds fs = Ok gs
+      /\ NoDup (map fst (concat gs))
+      /\ Forall (fun p => head_is (fun c => In (remap_get h2f c) (map f_name fds)) p) (map fst (concat gs)).
+  Proof.
+    induction 1 as [|[n [tf d]] r IHf _ IH]; intros [|[n' v'] fs'] Hnd Hd; cbn [dom_fields] in Hd; try discriminate.
+    - exists []. repeat split; constructor.
+    - apply andb_true_iff in Hd as [Hd Hd3]. apply andb_true_iff in Hd as [Hn Hd2].
+      cbn [map f_name fst] in Hnd. inversion Hnd as [|? ? Hnot Hnd3]; subst.
+      destruct (IH fs' Hnd3 Hd3) as (gs & Hgs & Hnd2 & Hh).
+      assert (Hh' : Forall (fun p => head_is (fun c => In (remap_get h2f c) (map f_name ((n, (tf, d)) :: r))) p)
+                           (map fst (concat gs))).
+      { rewrite Forall_forall in *. intros p Hp. specialize (Hh p Hp). destruct p; [contradiction|]. right. exact Hh. }
+      cbn [unparse_fields]. rewrite Hn. cbn [negb]. destruct (is_default d v') eqn:Ed.
+      + exists gs. repeat split; assumption.
+      + cbn zeta in Hd2 |- *. set (h := remap_get f2h n) in *.
+        apply andb_true_iff in Hd2 as [Hd2 Hc]. apply andb_true_iff in Hd2 as [_ Hk]. apply str_eqb_eq in Hk.
+        assert (Hgrp : exists cs, (if str_eqb n h then rmap (prefix_cols h) (unparse_rec tgt noexc tf v' (comps ++ [h]))
+                                   else if noexc (comps ++ [h]) then Ok []
+                                   else do s <- write_text tf v'; Ok [([h], s)]) = Ok (prefix_cols h cs)
+                                  /\ NoDup (map fst cs)).
+        { cbn [f_ty fst snd] in IHf. destruct (str_eqb n h).
+          - apply andb_true_iff in Hc as [_ Hdm]. destruct (IHf v' _ Hdm) as (cs & Hcs & Hndc).
+            exists cs. rewrite Hcs. split; [reflexivity|exact Hndc].
+          - cbn [noexc]. destruct (write_text_ok tf v' Hc) as [s Hs]. rewrite Hs.
+            exists [([], s)]. split; [reflexivity|]. repeat constructor. intros []. }
+        destruct Hgrp as (cs & -> & Hndc). cbn [bind]. rewrite Hgs. cbn [bind].
+        exists (prefix_cols h cs :: gs). split; [reflexivity|]. cbn [concat]. rewrite map_app. split.
+        * apply NoDup_app_disjoint; [apply NoDup_prefix, Hndc|exact Hnd2|].
+          intros p Hp Hq. pose proof (heads_prefix h cs) as H1.
+          rewrite Forall_forall in H1, Hh. specialize (H1 p Hp). specialize (Hh p Hq).
+          destruct p as [|c p']; [contradiction|]. cbn [head_is] in H1, Hh. subst c. rewrite Hk in Hh. contradiction.
+        * apply Forall_app. split; [|exact Hh'].
+          pose proof (heads_prefix h cs) as H1. rewrite Forall_forall in *.
+          intros p Hp. specialize (H1 p Hp). destruct p; [contradiction|]. cbn [head_is] in *. left. rewrite <- H1. symmetry. exact Hk.
+  Qed.
+
+  Theorem unparse_total : forall t, total_ok t.
+  Proof.
+    induction t as [| | | | |t' IH|fields h2f f2h IH] using ty_ind'; intros v comps Hd;
+      try (apply (total_leaf _ v comps); [reflexivity|exact Hd]);
+      (destruct (tgt comps) eqn:Et; [apply (total_leaf _ v comps); [cbn; rewrite Et; reflexivity|exact Hd]|]);
+      rewrite unparse_rec_unfold; rewrite dom_unfold in Hd; cbn [is_basic_ty orb] in Hd |- *; rewrite Et in Hd |- *.
+    - destruct v as [| | | |l|]; try discriminate.
+      destruct (total_ulist_elems comps l O Hd) as (gs & Hgs & Hnd & _). cbv beta zeta in Hgs. rewrite Hgs. eexists. split; [reflexivity|exact Hnd].
+    - destruct v as [| | | |l|]; try discriminate.
+      destruct (total_list_elems t' comps IH l O Hd) as (gs & Hgs & Hnd & _). cbv beta zeta in Hgs. rewrite Hgs. eexists. split; [reflexivity|exact Hnd].
+    - destruct v as [| | | | |fs]; try discriminate. apply andb_true_iff in Hd as [Hnames Hd].
+      destruct (total_model_fields h2f f2h comps fields IH fs (nodup_str_NoDup _ Hnames) Hd) as (gs & -> & Hnd & _).
+      eexists. split; [reflexivity|exact Hnd].
+  Qed.
+End Total.
+
+Lemma NoDup_map_inj_on {X Y} (f : X -> Y) l :
+  (forall a b, In a l -> In b l -> f a = f b -> a = b) -> NoDup l -> NoDup (map f l).
+Proof.
+  intros Hinj. induction 1 as [|x r Hx Hr IH]; [constructor|]. cbn [map]. constructor.
+  - intros Hin. apply in_map_iff in Hin as [y [Hy Hiny]].
+    assert (y = x) by (apply Hinj; [right; exact Hiny|left; reflexivity|exact Hy]). subst y. contradiction.
+  - apply IH. intros a b Ha Hb. apply Hinj; right; assumption.
+Qed.
+
+Lemma headers_nodup cs :
+  paths_nonempty cs -> names_ok cs -> NoDup (map fst cs) -> NoDup (map fst (cells_of cs)).
+Proof.
+  intros Hp Hn Hnd. unfold cells_of. rewrite map_map. cbn [fst]. rewrite <- (map_map fst header_of).
+  apply NoDup_map_inj_on; [|exact Hnd].
+  unfold paths_nonempty, names_ok in *. rewrite Forall_forall in Hp, Hn.
+  intros a b Ha Hb E. apply in_map_iff in Ha as [pa [<- Hpa]]. apply in_map_iff in Hb as [pb [<- Hpb]].
+  apply header_of_inj; [apply Hp, Hpa|apply Hp, Hpb|apply Hn, Hpa|apply Hn, Hpb|exact E].
+Qed.
+
+(* C07-1, full form: inside the domain the row is written and read back as the instance *)
+Theorem row_roundtrip_total root v targets :
+  row_dom root v targets = true ->
+  exists cells, unparse_row root v targets [] = Ok cells
+                /\ parse_row {| rm_ty := root; rm_ctx := None |} cells = Ok v.
+Proof.
+  intros Hd.
+  assert (Hu : exists cells, unparse_row root v targets [] = Ok cells).
+  { unfold row_dom in Hd. apply andb_true_iff in Hd as [Hm Hd].
+    destruct root as [| | | | | |fields h2f f2h]; try discriminate. clear Hm.
+    set (tgt := matches_headers targets) in *.
+    destruct (unparse_total tgt _ v [] Hd) as (cs & Hcs & Hnd).
+    unfold unparse_row. rewrite (unparse_rec_ext tgt (matches_headers []) noexc matches_no_headers).
+    fold tgt. rewrite Hcs. cbn [bind]. fold (cells_of cs).
+    (* the same bookkeeping as in row_roundtrip, for the header check *)
+    rewrite unparse_rec_unfold in Hcs. rewrite dom_unfold in Hd. cbn [is_basic_ty orb] in Hcs, Hd.
+    replace (tgt []) with false in Hcs, Hd by reflexivity.
+    destruct v as [| | | | |fs]; try discriminate. apply rmap_ok_inv in Hcs as (gs & Hgs & ->).
+    apply andb_true_iff in Hd as [Hnames Hd]. pose proof (nodup_str_NoDup _ Hnames) as Hnames'.
+    destruct (fill_model_fields tgt fields h2f f2h [] Hnames' fields
+                (proj2 (Forall_forall _ _) (fun f _ => puts_enc tgt (f_ty f))) fs [] gs
+                (fun f H => H) Hnames' (fun f _ => eq_refl) Hd Hgs) as (_ & F2 & F3).
+    apply paths_nonempty_concat in F2. apply names_ok_concat in F3.
+    rewrite (NoDup_nodup_str _ (headers_nodup _ F2 F3 Hnd)). eexists. reflexivity. }
+  destruct Hu as [cells Hu]. exists cells. split; [exact Hu|]. apply (row_roundtrip root v targets cells Hd Hu).
 Qed.
